@@ -92,6 +92,18 @@ theorem thinNodes_wf {m m' : MeshVal (List s)} (h : WF m) (attr : Option String)
   cases hm
   exact ⟨by simp [MeshVal.empty], by simp [MeshVal.empty], by simp [MeshVal.empty, Topology.Fits]⟩
 
+/-- `VertexColorSpace` and its Transformer (any transfer functions, any enum value, skip flag) -/
+theorem vertexColorSpace_wf {g0 g1 : s → s} {m m' : MeshVal (List s)} (h : WF m) {n : String} {mode : Nat} :
+    (m.vertexColorSpace g0 g1 n mode = some m' → WF m') ∧
+    (∀ skip, m.vertexColorSpaceT g0 g1 n skip mode = some m' → WF m') := by
+  refine ⟨fun hm => MeshVal.mapAttr_wf h hm, fun skip hm => ?_⟩
+  unfold vertexColorSpaceT at hm
+  split at hm
+  · exact MeshVal.mapAttr_wf h hm
+  · split at hm
+    · cases hm; exact h
+    · cases hm
+
 /-- `ScaleAttribute2D` -/
 theorem scale2D_wf {m m' : MeshVal (List s)} (h : WF m) {n : String} {o a : V2 s}
     (hm : m.scale2D n o a = some m') : WF m' := MeshVal.mapAttr_wf h hm
